@@ -4,6 +4,7 @@ CONSTANTS
   Runtimes = {"threaded", "tokio"}
   MaxReq = 2
   Kinds = {"close", "keep", "ws"}
+  SigTwice = TRUE
   Dev = {}
 SPECIFICATION SpecAllFair
 INVARIANTS TypeOK
